@@ -308,6 +308,7 @@ func checkC05(c *Ctx) {
 	c.ruleAckEncodesInCallback("C05-R4")
 	c.ruleAckRouting("C05-R5", []string{"PubRel"})
 	c.ruleDirectionKeys("C05-R6")
+	c.ruleNoTransparentRetry("C05-R7")
 }
 
 // boxedType returns the static type of the concrete value boxed into an interface argument.
